@@ -38,6 +38,8 @@ pub struct Prop {
     pub units: Vec<Unit>,
     /// extra coverage keys computed by the parent after merging (states / transitions for explorers)
     pub extra: Box<dyn Fn(&BTreeMap<String, Stats>) -> Value>,
+    /// build profiles the units are run under (C15: release and ovf)
+    pub profiles: Vec<&'static str>,
 }
 
 #[derive(Clone, Copy, PartialEq, Eq, Debug)]
@@ -192,78 +194,100 @@ pub fn run_check(prop: &Prop, tier: Tier) -> i32 {
         }
     }
 
-    // ---- spawn shards
+    // ---- spawn shards (once per build profile)
     let n = jobs();
-    let exe = std::env::current_exe().expect("current_exe");
-    let mut children = Vec::new();
-    for i in 0..n {
-        let out = work.join(format!("{}.{}.{}.json", prop.id, tier.name(), i));
-        let _ = std::fs::remove_file(&out);
-        let child = Command::new(&exe)
-            .args(["shard", prop.id, tier.name(), &i.to_string(), &n.to_string()])
-            .env("RUST_BACKTRACE", "0")
-            .env("RUST_LIB_BACKTRACE", "0")
-            .env("VERIF_SEED", (seed as i64).to_string())
-            .stdin(Stdio::null())
-            .stdout(Stdio::piped())
-            .stderr(Stdio::piped())
-            .spawn();
-        match child {
-            Ok(c) => children.push((i, out, c)),
-            Err(e) => {
-                println!("MACHINERY-ERROR: cannot spawn shard {}: {}", i, e);
-                return 2;
-            }
-        }
-    }
+    let this_exe = std::env::current_exe().expect("current_exe");
     let mut merged: BTreeMap<String, Stats> = BTreeMap::new();
     let mut chunks_run: BTreeMap<String, u64> = BTreeMap::new();
     let mut capped_units: Vec<String> = Vec::new();
     let mut stopped_units: Vec<String> = Vec::new();
-    let mut machinery_error = false;
-    let mut shard_docs: Vec<(usize, Value)> = Vec::new();
-    for (i, out, c) in children {
-        let o = c.wait_with_output();
-        let ok = matches!(&o, Ok(o) if o.status.success());
-        if !ok {
-            machinery_error = true;
-            if let Ok(o) = &o {
-                println!("MACHINERY-ERROR: shard {} failed: status {:?}\n{}", i, o.status, String::from_utf8_lossy(&o.stderr).chars().take(2000).collect::<String>());
-            }
-            continue;
+    let multi = prop.profiles.len() > 1;
+    let key_of = |profile: &str, unit: &str| if multi { format!("{}:{}", profile, unit) } else { unit.to_string() };
+    for profile in prop.profiles.iter() {
+        let exe = if *profile == "release" { this_exe.clone() } else { PathBuf::from(this_exe.display().to_string().replace("/release/", &format!("/{}/", profile))) };
+        if !exe.exists() {
+            println!("MACHINERY-ERROR: harness binary for profile {} not built: {}", profile, exe.display());
+            return 2;
         }
-        match std::fs::read(&out).ok().and_then(|b| serde_json::from_slice::<Value>(&b).ok()) {
-            Some(doc) => shard_docs.push((i, doc)),
-            None => {
+        let mut children = Vec::new();
+        for i in 0..n {
+            let out = work.join(format!("{}.{}.{}.{}.json", prop.id, tier.name(), profile, i));
+            let _ = std::fs::remove_file(&out);
+            let child = Command::new(&exe)
+                .args(["shard", prop.id, tier.name(), &i.to_string(), &n.to_string(), out.to_str().unwrap_or("")])
+                .env("RUST_BACKTRACE", "0")
+                .env("RUST_LIB_BACKTRACE", "0")
+                .env("VERIF_SEED", (seed as i64).to_string())
+                .stdin(Stdio::null())
+                .stdout(Stdio::piped())
+                .stderr(Stdio::piped())
+                .spawn();
+            match child {
+                Ok(c) => children.push((i, out, c)),
+                Err(e) => {
+                    println!("MACHINERY-ERROR: cannot spawn shard {}: {}", i, e);
+                    return 2;
+                }
+            }
+        }
+        let mut machinery_error = false;
+        let mut shard_docs: Vec<(usize, Value)> = Vec::new();
+        for (i, out, c) in children {
+            let o = c.wait_with_output();
+            let ok = matches!(&o, Ok(o) if o.status.success());
+            if !ok {
                 machinery_error = true;
-                println!("MACHINERY-ERROR: shard {} produced no result file", i);
-            }
-        }
-        let _ = std::fs::remove_file(&out);
-    }
-    if machinery_error {
-        return 2;
-    }
-    shard_docs.sort_by_key(|(i, _)| *i);
-    for u in &prop.units {
-        let mut st = Stats::new();
-        let mut ran = 0;
-        for (_, doc) in &shard_docs {
-            let j = &doc["units"][&u.name];
-            if j.is_null() {
+                if let Ok(o) = &o {
+                    println!("MACHINERY-ERROR: shard {} ({}) failed: status {:?}\n{}", i, profile, o.status, String::from_utf8_lossy(&o.stderr).chars().take(2000).collect::<String>());
+                }
                 continue;
             }
-            st.merge(&Stats::from_json(j));
-            ran += j["chunks_run"].as_u64().unwrap_or(0);
-            if j["capped"].as_bool().unwrap_or(false) && !capped_units.contains(&u.name) {
-                capped_units.push(u.name.clone());
+            match std::fs::read(&out).ok().and_then(|b| serde_json::from_slice::<Value>(&b).ok()) {
+                Some(doc) => shard_docs.push((i, doc)),
+                None => {
+                    machinery_error = true;
+                    println!("MACHINERY-ERROR: shard {} ({}) produced no result file", i, profile);
+                }
             }
-            if j["stopped_early"].as_bool().unwrap_or(false) && !stopped_units.contains(&u.name) {
-                stopped_units.push(u.name.clone());
-            }
+            let _ = std::fs::remove_file(&out);
         }
-        chunks_run.insert(u.name.clone(), ran);
-        merged.insert(u.name.clone(), st);
+        if machinery_error {
+            return 2;
+        }
+        shard_docs.sort_by_key(|(i, _)| *i);
+        for u in &prop.units {
+            let mut st = Stats::new();
+            let mut ran = 0;
+            let key = key_of(profile, &u.name);
+            for (_, doc) in &shard_docs {
+                let j = &doc["units"][&u.name];
+                if j.is_null() {
+                    continue;
+                }
+                st.merge(&Stats::from_json(j));
+                ran += j["chunks_run"].as_u64().unwrap_or(0);
+                if j["capped"].as_bool().unwrap_or(false) && !capped_units.contains(&key) {
+                    capped_units.push(key.clone());
+                }
+                if j["stopped_early"].as_bool().unwrap_or(false) && !stopped_units.contains(&key) {
+                    stopped_units.push(key.clone());
+                }
+            }
+            for v in st.violations.iter_mut() {
+                if multi {
+                    v.unit = key.clone();
+                }
+            }
+            chunks_run.insert(key.clone(), ran);
+            merged.insert(key, st);
+        }
+    }
+    // unit list in report order: (key, unit)
+    let mut report: Vec<(String, &Unit)> = Vec::new();
+    for profile in prop.profiles.iter() {
+        for u in &prop.units {
+            report.push((key_of(profile, &u.name), u));
+        }
     }
 
     // ---- verdict
@@ -291,12 +315,12 @@ pub fn run_check(prop: &Prop, tier: Tier) -> i32 {
         exit = 1;
         // stable order: by unit order
         let mut nfile = 0;
-        for u in &prop.units {
-            if merged[&u.name].violations_total > 0 {
-                let first = merged[&u.name].violations.first().map(|v| v.what.clone()).unwrap_or_default();
-                println!("  unit-summary unit={} violations={} first={}", u.name, merged[&u.name].violations_total, first);
+        for (key, _u) in report.iter() {
+            if merged[key].violations_total > 0 {
+                let first = merged[key].violations.first().map(|v| v.what.clone()).unwrap_or_default();
+                println!("  unit-summary unit={} violations={} first={}", key, merged[key].violations_total, first);
             }
-            for v in merged[&u.name].violations.iter().take(1) {
+            for v in merged[key].violations.iter().take(1) {
                 if nfile >= 60 {
                     break;
                 }
@@ -314,12 +338,12 @@ pub fn run_check(prop: &Prop, tier: Tier) -> i32 {
     // ---- evidence
     let exhaustive = capped_units.is_empty() && stopped_units.is_empty() && prop.units.iter().all(|u| u.exhaustive);
     let mut units_json = serde_json::Map::new();
-    for u in &prop.units {
-        let st = &merged[&u.name];
+    for (key, u) in report.iter() {
+        let st = &merged[key];
         units_json.insert(
-            u.name.clone(),
+            key.clone(),
             json!({
-                "domain": u.domain, "chunks": u.chunks, "chunks_run": chunks_run[&u.name],
+                "domain": u.domain, "chunks": u.chunks, "chunks_run": chunks_run[key],
                 "cases": st.cases, "nontrivial": st.nontrivial,
                 "expected_ok": st.exp_ok, "expected_err": st.exp_err, "left_open": st.exp_any, "left_open_but_executed_by_impl": st.any_executed,
                 "impl_ok": st.act_ok, "impl_err": st.act_err, "impl_panic": st.act_panic,
@@ -327,7 +351,7 @@ pub fn run_check(prop: &Prop, tier: Tier) -> i32 {
                 "cycles_checked": st.cycles_checked,
                 "full_memory_compares": st.full_compares, "locating_reruns": st.paranoid_reruns,
                 "violations": st.violations_total,
-                "complete": u.exhaustive && !capped_units.contains(&u.name) && !stopped_units.contains(&u.name),
+                "complete": u.exhaustive && !capped_units.contains(key) && !stopped_units.contains(key),
                 "notes": st.notes,
             }),
         );
@@ -352,6 +376,7 @@ pub fn run_check(prop: &Prop, tier: Tier) -> i32 {
         "stopped_early_units": stopped_units,
         "known_findings": total.known.iter().map(|(k, (n, _))| (k.clone(), json!(n))).collect::<BTreeMap<_, _>>(),
         "shards": n,
+        "build_profiles": prop.profiles,
         "explanation": "every case is executed by the production code compiled from /repo's working tree and compared with the reference model",
     });
     let extra = (prop.extra)(&merged);
